@@ -49,36 +49,33 @@ class Ctx:
             return True
         if z3.is_false(cond):
             return False
+        # feasibility of both sides under the current path condition (also while replaying a prefix: a branch that
+        # was FORCED in the original run was not recorded there, so it must not consume a prefix entry now)
+        s = self.ex.solver
+        s.push()
+        s.add(*self.pc)
+        s.push()
+        s.add(cond)
+        t_ok = str(s.check()) != 'unsat'
+        s.pop()
+        s.push()
+        s.add(z3.Not(cond))
+        f_ok = str(s.check()) != 'unsat'
+        s.pop()
+        s.pop()
+        self.ex.solver_calls += 2
+        if not t_ok and not f_ok:
+            raise PathAbort('infeasible path')
+        if not (t_ok and f_ok):
+            choice = t_ok
+            self.pc.append(cond if choice else z3.Not(cond))
+            return choice
         i = len(self.decisions)
         if i < len(self.prefix):
             choice = self.prefix[i]
         else:
-            s = self.ex.solver
-            s.push()
-            s.add(*self.pc)
-            s.push()
-            s.add(cond)
-            t_ok = str(s.check()) != 'unsat'
-            s.pop()
-            s.push()
-            s.add(z3.Not(cond))
-            f_ok = str(s.check()) != 'unsat'
-            s.pop()
-            s.pop()
-            self.ex.solver_calls += 2
-            if t_ok and f_ok:
-                choice = True
-                self.alts.append(self.decisions + [False])
-            elif t_ok:
-                choice = True
-            elif f_ok:
-                choice = False
-            else:
-                raise PathAbort('infeasible path')
-            if not (t_ok and f_ok):
-                # forced: no decision recorded, but keep the fact for later feasibility checks
-                self.pc.append(cond if choice else z3.Not(cond))
-                return choice
+            choice = True
+            self.alts.append(self.decisions + [False])
         self.decisions.append(choice)
         self.pc.append(cond if choice else z3.Not(cond))
         if len(self.decisions) > self.ex.max_decisions:
